@@ -64,6 +64,8 @@ type Exec struct {
 	onRead        func(st *State, l Loc)
 	nq            int
 	wroteAll      string
+	mapsHavocked  bool
+	nmepoch       int
 	epochAlloc    map[int]T
 	obsSeen       map[string]bool
 	immutKept     bool
@@ -183,6 +185,8 @@ func (ex *Exec) blockOrder() []*ssa.BasicBlock {
 type modSet struct {
 	locals map[*ssa.Alloc]bool
 	heaps  map[string]Sort
+	maps   bool // every map heap
+	ghosts []string
 	all    bool // opaque call
 	alloc  bool
 	locks  bool
@@ -295,6 +299,14 @@ func (ex *Exec) callModified(in ssa.CallInstruction, ms *modSet) {
 	}
 	if callee := c.StaticCallee(); callee != nil {
 		name := callee.String()
+		if ex.con != nil {
+			if v, ok := ex.con.Counts[callee.Name()]; ok {
+				ms.ghosts = append(ms.ghosts, "cnt:"+v)
+			}
+			if v, ok := ex.con.Observe[callee.Name()]; ok {
+				ms.ghosts = append(ms.ghosts, "obs:"+v)
+			}
+		}
 		if isLockCall(name) {
 			ms.locks = true
 			ms.all = true // relock havocs guarded state
@@ -313,6 +325,9 @@ func (ex *Exec) callModified(in ssa.CallInstruction, ms *modSet) {
 			for _, m := range con.Modifies {
 				if m.all {
 					ms.all = true
+				}
+				if m.allMaps {
+					ms.maps = true
 				}
 				for i, h := range m.heaps {
 					srt := ""
@@ -564,6 +579,9 @@ func (ex *Exec) run() {
 		}
 	}
 	if ex.con != nil {
+		for _, v := range ex.con.Counts {
+			st.ghost["cnt:"+v] = IntLit(0)
+		}
 		for callee, v := range ex.con.Observe {
 			var srt Sort = SBool
 			if f := ex.P.calleeByShortName(fn, callee); f != nil && f.Signature.Results().Len() > 0 {
@@ -692,6 +710,11 @@ func (ex *Exec) finish() {
 	if ex.con == nil {
 		return
 	}
+	for callee, v := range ex.con.Counts {
+		if !ex.obsSeen[v] {
+			ex.fail("count %s := %s: no call of %s found (anchor missing)", v, callee, callee)
+		}
+	}
 	for callee, v := range ex.con.Observe {
 		if !ex.obsSeen[v] {
 			ex.fail("observe %s := %s: no call of %s found (anchor missing)", v, callee, callee)
@@ -757,6 +780,15 @@ func (ex *Exec) frameObligations() {
 			}
 		}
 	}
+	allMaps := false
+	for _, m := range ex.con.Modifies {
+		if m.allMaps {
+			allMaps = true
+		}
+	}
+	if ex.mapsHavocked && !allMaps {
+		vc.oblige("frame", fmt.Sprintf("frame:%s:allmaps", ex.con.Name), TTrue, TFalse, ex.pos(ex.fn.Pos())).SetNote("a callee may modify any map; contract lacks `modifies allmaps`")
+	}
 	var names []string
 	for h := range ex.heapWrites {
 		names = append(names, h)
@@ -765,6 +797,9 @@ func (ex *Exec) frameObligations() {
 	for _, h := range names {
 		a := allowed[h]
 		if a != nil && a.whole {
+			continue
+		}
+		if allMaps && (strings.HasPrefix(h, "MapDom_") || strings.HasPrefix(h, "MapVal_")) {
 			continue
 		}
 		srt := ex.heapR.sorts[h]
